@@ -1,6 +1,6 @@
 (* bint -> text: tostring/%x of the Lua VM, tobase; round trip with frombase; bn.lua wrappers *)
 From C17 Require Import Model Model2 Model3 Proofs ProofsLib ProofsArith ProofsBits ProofsConv ProofsShift ProofsMisc
-  ProofsDiv ProofsText.
+  ProofsSudiv ProofsText.
 From Coq Require Import ZifyBool.
 Local Open Scope Z_scope.
 Ltac Zify.zify_post_hook ::= Z.div_mod_to_equations.
